@@ -1,4 +1,5 @@
 CONSTANTS
+  AnyOrder = FALSE
   MinItems = 0
   NC = 2
   L = 3
